@@ -438,7 +438,7 @@ pub fn run(cli: &Cli) {
         machinery_failure("replay: unknown subject");
     }
     let mut run = Run::new(cli, "model_checking");
-    let depth = cli.tier.pick(6, 8);
+    let depth = cli.tier.pick(6, 9);
     for s in &subs {
         let b = Bounds::new(depth, cli).deviations(cli.tier.pick(1, 2)).wall(cli.tier.pick(40, 1200));
         let r = explore(s, &b);
